@@ -235,6 +235,7 @@ func fetchHelper(w *World, fn *ssa.Function) (int, bool) {
 }
 
 func runC03(w *World, r *Report) {
+	ruleNodeFresh(w, r)
 	runC03Sites(w, r)
 	ruleStepArgs(w, r, ruleStepRes(w, r, "(*Expr).Eval"))
 	ruleScFlags(w, r)
@@ -711,7 +712,7 @@ func ruleScJump(w *World, r *Report, l *evalLoop) {
 var _ = sort.Strings
 var _ = strings.Join
 
-var c03Witnesses = []Witness{
+var c03Witnesses = append(nodeFreshWitnesses, []Witness{
 	{Name: "prefetch-all-variables", Rule: "R-CALLSITES", Edits: []Edit{
 		{File: "engine.go", Old: "	for i := int16(0); i < size; i++ {\n		curt = nodes[i]\n		switch curt.flag & nodeTypeMask {\n		case fastOperator:\n			i++\n			child := nodes[i]", New: "	for _, n := range nodes {\n		if n.flag&nodeTypeMask == variable {\n			if _, err = ctx.Get(n.varKey, n.value.(string)); err != nil {\n				return nil, err\n			}\n		}\n	}\n	for i := int16(0); i < size; i++ {\n		curt = nodes[i]\n		switch curt.flag & nodeTypeMask {\n		case fastOperator:\n			i++\n			child := nodes[i]"}}},
 	{Name: "fetch-constant-child", Rule: "R-CALLSITES", Edits: []Edit{
@@ -729,4 +730,4 @@ var c03Witnesses = []Witness{
 		{File: "engine.go", Old: "			for (!b && curt.flag&scIfFalse == scIfFalse) ||\n				(b && curt.flag&scIfTrue == scIfTrue) {", New: "			for (!b && curt.flag&scMask != 0) ||\n				(b && curt.flag&scIfTrue == scIfTrue) {"}}},
 	{Name: "benign-variable-arm-helper-locals", Benign: true, Edits: []Edit{
 		{File: "engine.go", Old: "		case variable:\n			res, err = ctx.Get(curt.varKey, curt.value.(string))\n			if err != nil {\n				return\n			}\n		case constant:\n			res = curt.value\n		case operator:\n			cCnt := int16(curt.childCnt)\n			osTop = osTop - cCnt\n			if cCnt == 2 {\n				param2[0], param2[1] = os[osTop+1], os[osTop+2]\n				params = param2[:]", New: "		case variable:\n			key, nm := curt.varKey, curt.value.(string)\n			res, err = ctx.Get(key, nm)\n			if err != nil {\n				return\n			}\n		case constant:\n			res = curt.value\n		case operator:\n			cCnt := int16(curt.childCnt)\n			osTop = osTop - cCnt\n			if cCnt == 2 {\n				param2[0], param2[1] = os[osTop+1], os[osTop+2]\n				params = param2[:]"}}},
-}
+}...)
